@@ -19,7 +19,7 @@ EdgeNumbered(e) == Sup(e, "en") \/ (~Sup(e, "fe") /\ ~Sup(e, "ef"))
 
 ClauseNames == {"WorldConsistent", "TablesAvailable", "FacesEncodingIndependent", "SuppliedUsedAsGiven", "ValidFlags",
                 "EdgeNodeConsistent", "FaceEdgeConsistent", "EdgeFaceConsistent", "FaceFaceConsistent",
-                "PolygonsFromFaces", "Dimensions"}
+                "PolygonsFromFaces", "Dimensions", "TablesStable"}
 
 Clause(name, ww, e) ==
   CASE name = "WorldConsistent" ->          \* sanity of the generated input itself
@@ -51,6 +51,10 @@ Clause(name, ww, e) ==
             /\ Len(e.obs.polys.ok) = Len(M0.faces)
             /\ \A n \in 1..Len(M0.faces) :
                  Degenerate(RawPoly(ww, n - 1)) \/ SameRing(e.obs.polys.ok[n], PolyAt(ww, n - 1))
+    [] name = "TablesStable" ->
+         \* asked again (same topology object, and a fresh convention object on the same dataset) every table reads as it
+         \* did the first time: deriving one table does not disturb another
+         \A nm \in {"fn", "en", "fe", "ef", "ff"} : (e.obs.again[nm] = e.obs[nm] /\ e.obs.fresh[nm] = e.obs[nm])
     [] name = "Dimensions" ->
          e.obs.dims = e.expectdims
 
